@@ -156,7 +156,6 @@ impl CanonicalRequest {
 //@ fn canonical.rs impl CanonicalRequest :: get_auth_parameters_from_auth_header
 //@ props C08 C19 C13 C02
 //@ ret r
-//@ attr #[verifier::rlimit(60)]
 //   (the parameter `auth_header` is shadowed by its trimmed version; renamed so that loop invariants can still name the parameter)
 //@ replace 1 `let auth_header = trim_ascii(auth_header);` => `let auth_header_t = trim_ascii(auth_header);`
 //@ replace 1 `auth_header.splitn(2, |c| *c == b' ').collect::<Vec<&'a [u8]>>()` => `bytes_splitn2(auth_header_t, b' ')`
@@ -273,7 +272,6 @@ impl CanonicalRequest {
 //@ fn canonical.rs impl CanonicalRequest :: get_auth_parameters_from_query_parameters
 //@ props C08 C19 C13 C02
 //@ ret r
-//@ attr #[verifier::rlimit(60)]
 //@ replace 1 `unescaped_signed_headers.split(';').map(|s| s.to_string()).collect::<Vec<String>>()` => `string_split_to_strings(&unescaped_signed_headers, ';')`
 //@ replace 1 `signed_headers.sort();` => `sort_strings(&mut signed_headers);`
 //@ spec
@@ -322,6 +320,9 @@ impl CanonicalRequest {
             self.qp().contains_key(string_of_bytes(Q_ALGORITHM())) ==> self.qp()[string_of_bytes(Q_ALGORITHM())]@.len() > 0
                 && self.first_query_alg() == str_bytes(self.qp()[string_of_bytes(Q_ALGORITHM())]@[0]@),
     {
+        lemma_params_literals();
+        axiom_string_of_str_bytes(AUTHORIZATION);
+        axiom_string_of_str_bytes(X_AMZ_ALGORITHM);
         let ka = string_of_bytes(H_AUTHORIZATION());
         let kq = string_of_bytes(Q_ALGORITHM());
         if self.headers@.contains_key(ka) { assert(self.headers@[ka]@.len() > 0); assert(self.hview()[H_AUTHORIZATION()] == vecs_bytes(self.headers@[ka]@)); }
